@@ -304,7 +304,15 @@ func (g *gen) intExpr(typ string, depth int) string {
 			c = g.expr("uint8", depth-1)
 		case 2:
 			if !g.off["shift.signed_count"] {
-				c = "(" + g.expr("int", depth-1) + " & 63)"
+				// The signed count goes through a variable-free, float-free expression:
+				// gc 1.25.0 miscompiles x << (int(func() float64 { return -1 }()) & 63)
+				// (it prints 3 for x = 6; computed in steps it prints 0, as Scriggo does),
+				// so a float-to-int conversion is never the operand of the mask.
+				e := g.expr("int", depth-1)
+				if strings.Contains(e, "float") {
+					e = g.intLit("int")
+				}
+				c = "(" + e + " & 63)"
 				break
 			}
 			fallthrough
